@@ -313,10 +313,13 @@ impl ParallelCacheState {
             // If it is marked as selfdestructed inside revm
             // we need to changed state to destroyed.
             if is_destructed {
+                // Mark the account before clearing its cached storage: a concurrent cache-filling
+                // read re-checks the status while it holds the storage entry (see `db_storage`).
+                let transition = self.get_account_mut(address).selfdestruct();
                 self.storage.remove(&address);
                 #[cfg(feature = "verif")]
                 crate::verif::point(crate::verif::Point::CommitApplyAccount, 0, 0);
-                return self.get_account_mut(address).selfdestruct();
+                return transition;
             }
 
             // Note: it can happen that created contract get selfdestructed in same block
@@ -329,11 +332,11 @@ impl ParallelCacheState {
             // is not possible because CREATE2 is introduced later.
             if is_created {
                 let info = account.info;
+                let (transition, changed_slots) =
+                    self.get_account_mut(address).newly_created(info.clone(), changed_storage);
                 self.storage.remove(&address);
                 #[cfg(feature = "verif")]
                 crate::verif::point(crate::verif::Point::CommitApplyAccount, 1, 0);
-                let (transition, changed_slots) =
-                    self.get_account_mut(address).newly_created(info.clone(), changed_storage);
                 self.contracts.entry(info.code_hash).or_insert_with(|| info.code.clone().unwrap());
                 (Some(transition), Some(changed_slots))
             }
@@ -345,11 +348,12 @@ impl ParallelCacheState {
             // pre-existing empty accounts are unmarked as touched. Therefore, an account that
             // reaches the commit layer as touched, empty, and not created must be cleared.
             else if is_empty {
+                drop(changed_storage);
+                let transition = self.get_account_mut(address).touch_empty_eip161();
                 self.storage.remove(&address);
                 #[cfg(feature = "verif")]
                 crate::verif::point(crate::verif::Point::CommitApplyAccount, 2, 0);
-                drop(changed_storage);
-                (self.get_account_mut(address).touch_empty_eip161(), None)
+                (transition, None)
             } else {
                 let (transition, changed_slots) =
                     self.get_account_mut(address).change(account.info, changed_storage);
@@ -589,12 +593,30 @@ impl<'a, DB: DatabaseRef> ParallelStateView<'a, DB> {
         };
         #[cfg(feature = "verif")]
         crate::verif::point(crate::verif::Point::CacheAfterFetchStorage, is_storage_known as usize, 0);
+        // The account may have been destroyed or (re)created by ordered commit while the value was
+        // being fetched. Commit marks the account before it clears the cached storage, and that
+        // clearing needs the storage entry held below, so re-reading the status here decides
+        // whether the fetched pre-commit value may still be cached.
+        let still_valid = |fetched: U256| {
+            if !is_storage_known &&
+                self.cache.accounts.get(&address).is_some_and(|account| {
+                    account.status.is_storage_known() || account.account.is_none()
+                })
+            {
+                U256::ZERO
+            } else {
+                fetched
+            }
+        };
         let value = if let Some(slots) = self.cache.storage.get(&address) {
-            *slots.entry(index).or_insert(value).value()
+            *slots.entry(index).or_insert(still_valid(value)).value()
         } else {
             match self.cache.storage.entry(address) {
-                Entry::Occupied(entry) => *entry.get().entry(index).or_insert(value).value(),
+                Entry::Occupied(entry) => {
+                    *entry.get().entry(index).or_insert(still_valid(value)).value()
+                }
                 Entry::Vacant(entry) => {
+                    let value = still_valid(value);
                     *entry.insert(Default::default()).entry(index).or_insert(value).value()
                 }
             }
